@@ -153,6 +153,50 @@ Section Targets.
         end
     end.
 
+  (** * Resolution time with semver-aware lookups: the code after hooks/fix-c11-semver-targets.patch
+      ([world.all_imports(types).get(name, &NameMapNoIntern)] for imports, a [NameMap] folded over
+      [CompositionGraph::exports()] for exports).  [None] = one of the [unwrap]s panics. *)
+  Fixpoint rs_imports (wi : namemap K) (l : list (str * K * bool)) : option terror :=
+    match l with
+    | [] => None
+    | (name, item, _) :: r =>
+        match nm_get wi name with
+        | None => Some (ImportNotInTarget name)
+        | Some expected =>
+            if sub (promote expected) item then rs_imports wi r
+            else Some (TargetMismatch EImport name)
+        end
+    end.
+
+  Fixpoint rs_exports (ce : namemap K) (l : list (str * K)) : option terror :=
+    match l with
+    | [] => None
+    | (name, expected) :: r =>
+        match nm_get ce name with
+        | None => Some (MissingTargetExport name)
+        | Some export =>
+            if sub export (promote expected) then rs_exports ce r
+            else Some (TargetMismatch EExport name)
+        end
+    end.
+
+  Definition resolve_target_sv (w : tworld) (c : comp) : option rverdict :=
+    match all_imports w with
+    | None => None
+    | Some wi =>
+        match rs_imports wi (c_imports c) with
+        | Some e => Some (RErr e)
+        | None =>
+            match nm_fill nm_empty (c_exports c) with
+            | None => None
+            | Some ce => match rs_exports ce (tw_exports w) with
+                         | Some e => Some (RErr e)
+                         | None => Some ROk
+                         end
+            end
+        end
+    end.
+
   (** [impl From<TargetValidationReport> for TargetValidationResult] *)
   Definition report_ok (r : report) : bool :=
     is_nil (r_not_in_target r) && is_nil (r_missing r) && is_nil (r_mismatched r).
@@ -164,6 +208,7 @@ Arguments mktworld {K}. Arguments tw_implicit {K}. Arguments tw_imports {K}. Arg
 Arguments mkcomp {K}. Arguments c_imports {K}. Arguments c_exports {K}.
 Arguments resolve_target {K}. Arguments standalone_target {K}. Arguments standalone_ok {K}.
 Arguments rt_expected {K}. Arguments rt_imports {K}. Arguments rt_exports {K}.
+Arguments resolve_target_sv {K}. Arguments rs_imports {K}. Arguments rs_exports {K}.
 Arguments all_imports {K}. Arguments st_import {K}. Arguments st_export {K}.
 Arguments nm_fill {V}.
 
